@@ -208,6 +208,81 @@ def h_marker_history(ctx, case):
     return 'ok'
 
 
+def _rs_setup(case, mode):
+    from harness import refstats as RS
+    RS.setup(case, mode)
+
+
+def h_stats_history(ctx, case):
+    """reference-statistics stage in a scratch directory other runs use
+    too, writing to a location where an earlier run left a file: the
+    statistics are those of a clean run, the inputs keep their content,
+    the other runs' files are left alone and nothing of this run stays"""
+    from harness.common import Env, same_value
+    from harness import refstats as RS
+    from harness.C05 import expect
+    env = Env(ctx)
+    inp = RS.build_inputs(ctx, case, env)
+    sentinels = []
+    if ctx.flag('other_runs_use_the_scratch_directory'):
+        for name in ('precomputation_data_buffer_',
+                     'precomputation_data_buffer_other', 'tmp_other_run'):
+            d = os.path.join(env.dir, name)
+            os.makedirs(d)
+            p = os.path.join(d, 'other_run.txt')
+            with open(p, 'w') as f:
+                f.write('belongs to another run')
+            sentinels.append(p)
+    prior = ['nothing', 'earlier_product', 'garbage'][
+        ctx.choice('left_at_output', 3)]
+    out = env.path('stats.h5')
+    if prior == 'earlier_product':
+        with env.File(out, 'w') as f:
+            for k in ('n_cells', 'sum', 'sumsq', 'gt0', 'gt1', 'ge1'):
+                f.create_dataset(k, data=[7.0])
+            f.create_dataset('col_names', data=b'["stale_gene"]')
+            f.create_dataset('cluster_to_row', data=b'{"stale": 0}')
+            f.create_dataset('taxonomy_tree', data=b'{"stale": true}')
+            f.create_dataset('metadata', data=b'{"stale": true}')
+    elif prior == 'garbage':
+        with open(out, 'wb') as f:
+            f.write(b'left behind by a run that died while writing')
+    res = RS.run_stage(ctx, case, env, inp)
+    if res['raised'] is not None:
+        ctx.exception(res['raised'], f'left at output: {prior}: '
+                      + str(res['raised'])[:80])
+        return 'EXC'
+    ctx.reach('written')
+    RS.check_stats(ctx, inp, res, env)
+    with env.File(res['out'], 'r') as f:
+        ctx.check('metadata' not in f, 'nothing of the file an earlier '
+                  'run left at the output location survives')
+    ctx.check(all(os.path.exists(p) and open(p).read()
+                  == 'belongs to another run' for p in sentinels),
+              'files of other runs in the scratch directory are left '
+              'alone')
+    mine = [n for n in os.listdir(env.dir)
+            if not n.endswith('.h5ad') and n != 'stats.h5'
+            and not any(p.startswith(os.path.join(env.dir, n) + os.sep)
+                        for p in sentinels)]
+    ctx.check(mine == [], 'nothing of this run left in the scratch '
+              f"directory: {[n.rsplit('_', 1)[0] + '_*' for n in mine[:3]]}")
+    # inputs keep their content
+    for p in inp['paths']:
+        nm = inp['names'][p]
+        with env.File(p, 'r') as f:
+            ok = 'X' in f
+            ctx.check(ok, 'input file still has its matrix')
+            if ok and case.get('enc', 'dense') == 'dense':
+                x = f['X'][()]
+                for i, n in enumerate(nm):
+                    for g in range(len(inp['genes'])):
+                        ctx.check(same_value(ctx, x[i, g],
+                                             inp['rows_in_file'][n][g]),
+                                  'input matrix unchanged')
+    return 'ok'
+
+
 def _ss_setup(case, mode):
     from harness import selstage as SS
     SS.setup(case, mode)
@@ -254,6 +329,28 @@ def h_lookup_history(ctx, case):
 
 
 HARNESSES = [
+    Harness('statistics_stage_history', h_stats_history, setup=_rs_setup,
+            cases=[{'cells': 2, 'genes': 1, 'clusters': 1, 'max_proc': 2},
+                   {'files': 2, 'cells': 1, 'genes': 1, 'clusters': 1,
+                    'max_proc': 2, 'copy_data_over': True, 'K': 0}],
+            thorough_cases=[{'files': 2, 'cells': 2, 'genes': 1,
+                             'clusters': 2, 'max_proc': 3,
+                             'copy_data_over': True},
+                            {'cells': 3, 'genes': 1, 'clusters': 2,
+                             'max_proc': 3, 'via_tree': True}],
+            funcs=['precompute_from_anndata.precompute_summary_stats_from_'
+                   'h5ad_and_lookup',
+                   '_precompute_summary_stats_from_h5ad_and_lookup',
+                   '_process_chunk_spec', 'precompute._create_empty_stats_'
+                   'file'],
+            stubs=['h5py -> model; multiprocessing -> scheduler; '
+                   'read_df_from_h5ad -> names'],
+            bounds='1-2 files, 1-3 cells; with and without staging copies '
+                   '(copy_data_over); scratch directory shared with other '
+                   "runs' directories under the stage's own name patterns; "
+                   'at the output path nothing, an earlier complete file, '
+                   'or a truncated one',
+            expect_reach=['written']),
     Harness('query_marker_stage_history', h_lookup_history,
             setup=_ss_setup, cases=[{}], thorough_cases=[{'K': 1}],
             funcs=['marker_cache_v2.create_marker_gene_lookup_from_ref_list',
